@@ -97,6 +97,66 @@ def judgeHttp (expTag : String) (t : Truth) (obs : List Obs) : String :=
       | .failed =>
         if o.net = 0 then "fail:net:exchange failed but net code 0" else "ok"
 
+/-! ### scenarios -/
+
+/-- ground truth of one scenario step -/
+inductive StepTruth where
+  /-- a response with this status was received and accepted by every postprocessor -/
+  | passed (status : Nat)
+  /-- the step failed (nothing sent, exchange failed, or an assertion rejected the response) -/
+  | failedStep
+  deriving Repr, DecidableEq, Inhabited
+
+/-- the steps one shot executes: up to and including the first failing one -/
+def executed : List (String × StepTruth) → List (String × StepTruth)
+  | [] => []
+  | (n, .passed st) :: rest => (n, .passed st) :: executed rest
+  | (n, .failedStep) :: _ => [(n, .failedStep)]
+
+/-- http scenario, one shot: one sample per executed step, tagged `scenario.step` -/
+def judgeShot (scn : String) : List (String × StepTruth) → List Obs → String
+  | [], [] => "ok"
+  | [], _ :: _ => "fail:count:more samples than executed steps"
+  | _ :: _, [] => "fail:count:fewer samples than executed steps"
+  | (name, t) :: rest, o :: os =>
+    let base := scn ++ "." ++ name
+    match t with
+    | .passed st =>
+      if o.tags ≠ base then s!"fail:tag:got {o.tags} want {base}"
+      else if o.proto ≠ st then s!"fail:proto:got {o.proto} want {st}"
+      else if o.net ≠ 0 then s!"fail:net:response received but net code {o.net}"
+      else judgeShot scn rest os
+    | .failedStep =>
+      if o.tags ≠ base ∧ o.tags ≠ base ++ "|" ++ emptyTag then s!"fail:tag:got {o.tags} want {base}"
+      else if o.net = 0 then "fail:net:step failed but net code 0"
+      else judgeShot scn rest os
+
+/-- `n` identical shots -/
+def judgeShots (scn : String) (steps : List (String × StepTruth)) : Nat → List Obs → String
+  | 0, [] => "ok"
+  | 0, _ :: _ => "fail:count:samples after the last shot"
+  | n + 1, obs =>
+    let ex := executed steps
+    if obs.length < ex.length then "fail:count:fewer samples than executed steps"
+    else
+      match judgeShot scn ex (obs.take ex.length) with
+      | "ok" => judgeShots scn steps n (obs.drop ex.length)
+      | v => v
+
+/-! ### gRPC -/
+
+/-- one gRPC request: its tag and, when the call was made, the status code the target answered -/
+def judgeGrpc : List (String × Option Nat) → List Obs → String
+  | [], [] => "ok"
+  | [], _ :: _ => "fail:count:more samples than requests"
+  | _ :: _, [] => "fail:count:fewer samples than requests"
+  | (tag, code) :: rest, o :: os =>
+    if o.tags ≠ tag then s!"fail:tag:got {o.tags} want {tag}"
+    else match code with
+      | some c => if o.proto ≠ docTable c then s!"fail:proto:status {c} reported as {o.proto}, documented {docTable c}"
+                  else judgeGrpc rest os
+      | none => judgeGrpc rest os
+
 /-- all ids distinct -/
 def idsUnique (ids : List Nat) : Bool :=
   let rec go : List Nat → Bool
